@@ -6,7 +6,7 @@ sys.path.insert(0, os.path.join(VERIF, "lib"))
 import units as U
 
 props = [json.loads(l) for l in open(os.path.join(VERIF, "properties.jsonl"))]
-claimed = [p["id"] for p in props if p["id"] in U.PROPS and any(p["id"] in u["props"] for u in U.all_units()) and not U.PROPS[p["id"]].get("unclaimed")]
+claimed = [p["id"] for p in props if p["id"] in U.PROPS and any(p["id"] in u["props"] for u in U.all_units()) and not U.PROPS[p["id"]].get("unclaimed") and U.PROPS[p["id"]].get("level_text", "TODO") != "TODO"]
 checks = []
 for pid in claimed:
     sp = U.PROPS[pid]
